@@ -473,6 +473,7 @@ let rx (rest : string) : string =
                                                 x_settled = opt_bool (kv f "set"); x_more = (kv f "more" = "1"); x_rsm = opt_bool (kv f "rsm");
                                                 x_aborted = (kv f "ab" = "1"); x_pay = bytes_of_hex (kv f "pay") })
           | ["recv"] -> Some Receiver.ERecv
+          | ["rcancel"] -> Some Receiver.ECancelRecv
           | ["cred"; n] -> if busy then None else Some (Receiver.ECredit (n_of_string n))
           | ["drain"] -> if busy then None else Some Receiver.EDrain
           | "pflow" :: f -> Some (Receiver.EPFlow (opt_n (kv f "dc"), kv f "echo" = "1"))
@@ -521,6 +522,32 @@ let lifem (rest : string) : string =
     | SessLife.SEnded (_, _) -> "conn=open" in
   Buffer.add_string buf ("# " ^ fin); Buffer.contents buf
 
+(* ---------- saslm: the listener's SASL layer (C19) ---------- *)
+let saslm (rest : string) : string =
+  match split_on rest '|' with
+  | [hd; script] ->
+      let m = (match words hd with ["plain"] -> SaslListener.MPlain | ["scram"] -> SaslListener.MScram | _ -> failwith "saslm: bad mech") in
+      let acts = split_on script ';' in
+      let buf = Buffer.create 128 in
+      Buffer.add_string buf "Hs";
+      let _ = Stdlib.List.fold_left (fun s a ->
+        let act = match words a with
+          | ["hs"] -> SaslListener.CHs | ["ha"] -> SaslListener.CHa | ["hdrx"] -> SaslListener.CHdrX
+          | ["initok"] -> SaslListener.CInitOk | ["initbad"] -> SaslListener.CInitBad
+          | ["respok"] -> SaslListener.CRespOk | ["respbad"] -> SaslListener.CRespBad
+          | ["cframe"] -> SaslListener.CFrame | ["open"] -> SaslListener.COpen | ["eof"] -> SaslListener.CEof
+          | _ -> failwith ("saslm: bad action " ^ a) in
+        let (s', o) = SaslListener.lstep m s act in
+        let wire = Stdlib.List.filter_map (function
+          | SaslListener.LM -> Some "M" | SaslListener.LCh -> Some "Ch" | SaslListener.LOutOk -> Some "OutOk"
+          | SaslListener.LOutFail -> Some "OutFail" | SaslListener.LH -> Some "H" | SaslListener.LO -> Some "O" | SaslListener.LC -> Some "C" | SaslListener.LCe -> Some "Ce(IllegalState)" | _ -> None) o in
+        let w = if wire = [] then "-" else Stdlib.String.concat "," wire in
+        let acc = if Stdlib.List.mem SaslListener.LAcceptOk o then " accept=ok" else if Stdlib.List.mem SaslListener.LAcceptErr o then " accept=err" else "" in
+        let eof = if Stdlib.List.mem SaslListener.LEof o then " EOF" else "" in
+        Buffer.add_string buf (" ; " ^ w ^ acc ^ eof); s') SaslListener.LHdr acts in
+      Buffer.contents buf
+  | _ -> failwith "saslm: expected `mech | actions`"
+
 let dispatch (line : string) : string =
   match Stdlib.String.index_opt line ' ' with
   | None -> failwith "no model tag"
@@ -535,6 +562,7 @@ let dispatch (line : string) : string =
        | "c17" -> c17 rest
        | "rx" -> rx rest
        | "lifem" -> lifem rest
+       | "saslm" -> saslm rest
        | "lnk" -> c11_lnk rest
        | "chn" -> c11_chn rest
        | "xfer" -> frame_xfer rest
